@@ -680,6 +680,13 @@ class Machine(object):
                 else:
                     vals.append(self.ev(frame, a))
                     refs.append(None)
+            # what a device procedure receives in a string parameter is what its PARAM line has room for
+            lp = (self.lib.get(name) or {}).get("params") or []
+            if len(lp) == len(vals):
+                for i, (pname, pdims, pty) in enumerate(lp):
+                    if pty and pty[0] == "STRING" and isinstance(vals[i], str) and not vals[i].startswith("<"):
+                        pn = pty[1] if len(pty) > 1 and isinstance(pty[1], int) else 32
+                        vals[i] = vals[i][:pn]
             if name == "inkey":
                 # OS-9 system module: RUN inkey(char$) or RUN inkey(path, char$)
                 ok = len(refs) in (1, 2) and isinstance(refs[-1], Cell) and refs[-1].t[0] == "STRING" and \
